@@ -3,6 +3,7 @@
 package b
 
 import (
+	"time"
 	"bufio"
 	"encoding/json"
 	"fmt"
@@ -99,6 +100,7 @@ type upstream struct {
 	emitted  int
 	startedC chan int // signals the driver that the subscription is established
 	goC      chan int // the driver releases the script
+	doneC    chan int // the script is over (buffered, signalled once)
 }
 
 type wsEnv struct {
@@ -122,7 +124,7 @@ func (e *wsEnv) install() {
 		}
 		k := len(e.ups)
 		gw, srv := vrt.Pipe(fmt.Sprintf("up%d", k))
-		u := &upstream{index: k, svc: svc, gwSide: gw, srvSide: srv, startedC: e.startedC, goC: vrt.MakeChan[int](1)}
+		u := &upstream{index: k, svc: svc, gwSide: gw, srvSide: srv, startedC: e.startedC, goC: vrt.MakeChan[int](1), doneC: vrt.MakeChan[int](1)}
 		if k < len(e.scripts) {
 			u.script = e.scripts[k]
 		}
@@ -178,6 +180,7 @@ func (e *wsEnv) serveUpstream(u *upstream) {
 	}
 	vrt.Send(u.startedC, u.index)
 	vrt.Recv(u.goC)
+	defer vrt.Send(u.doneC, 1)
 	for _, act := range u.script {
 		switch act {
 		case "event":
@@ -209,6 +212,15 @@ func (e *wsEnv) serveUpstream(u *upstream) {
 			}
 		case "errorpayload":
 			b, _ := json.Marshal(map[string]interface{}{"type": "data", "id": "1", "payload": map[string]interface{}{"data": nil, "errors": []interface{}{map[string]interface{}{"message": "upstream says no", "extensions": map[string]interface{}{"code": "UP"}}}}})
+			if err := writeServerFrame(conn, b); err != nil {
+				return
+			}
+		case "quiet11s":
+			// the service has nothing to say for 11 s (keep-alives are optional in graphql-ws)
+			vrt.Sleep(11 * time.Second)
+		case "errorlist":
+			// an error message whose payload is a list of errors (the other spelling services use); the stream goes on
+			b, _ := json.Marshal(map[string]interface{}{"type": "error", "id": "1", "payload": []interface{}{map[string]interface{}{"message": "upstream list error", "extensions": map[string]interface{}{"code": "L"}}}})
 			if err := writeServerFrame(conn, b); err != nil {
 				return
 			}
